@@ -20,7 +20,7 @@ EXTRACTS = ["Solver", "C14"]
 THEOREMS = ["C07_listing_order_free_partial", "C07_listing_order_tie_refuted", "C07_spelling_irrelevant",
             "C07_sort_is_a_function_of_the_set_partial", "C07_index_page_listing_order_free_partial",
             "C07_index_page_entry_independent_partial", "C07_whole_compile_listing_order_free", "C07_compile_depends_on_answers_only"]
-MODES = ["calm", "conflict", "extras", "dense"]
+MODES = ["calm", "conflict", "extras", "dense", "cascade"]
 RULE = ("(a) whole-compile correspondence of the real solver with the model, which is a function of the logical input; "
         "(b) metamorphic runs of the real code against its own base run: candidate listings shuffled, input lines and "
         "input files reordered, project names respelled (case, '-', '_', '.'), the same compile repeated after 1-3 unrelated "
